@@ -94,10 +94,7 @@ Next == /\ c.kind = "seed"
 IsCase == c.kind = "cfg"
 IsSquare == IsCase /\ c.cfg.cls = "SquareMatrices"
 
-(* ---- the count of the property statement: 214 of the 288 combinations of dimension 2-5 x 6 symmetries x traceless x
-   determinant {None, 0, 1} x complex are accepted *)
-ASSUME Cardinality(Combos(2..5)) = 288
-ASSUME AcceptedCount(2..5) = 214
+(* the count of the property statement (214 of 288 combinations accepted) is an ASSUME of SamplerContracts *)
 
 (* ---- laws, checked on every enumerated configuration *)
 LawWithinVocabulary == IsCase => WithinVocabulary(c.cfg)
